@@ -13,6 +13,9 @@ From Coq Require Import ZArith QArith List String Bool.
 From Desper Require Import Math.Sig Math.Spec Math.QInst Math.MathGen.
 Import ListNotations.
 
+(* n/d as the harness writes it *)
+Definition q (n : Z) (d : positive) : Q := Qmake n d.
+
 Record C18_case := {
   c_meth : string;
   c_in   : list Q;
